@@ -315,6 +315,30 @@ void misc_phase(World& w, const Task& t, Agg& a)
     V2_TRACK_FIELDS(X)
 #undef X
     must_throw("track_table::remove", [&] { tt.remove(ghost); });
+    // whether a row exists may not be judged by what the connection did last: the same calls straight after a statement that changed
+    // a row, and a remove() of an existing row straight after a statement that changed none
+    {
+        int64_t A = tt.add(base_row(0));
+        tt.set_title(A, std::string("changed just before"));
+        must_throw("track_table::remove (after a row-changing statement)", [&] { tt.remove(ghost); });
+        tt.set_title(A, std::string("changed just before, again"));
+        must_throw("set_title (after a row-changing statement)", [&] { tt.set_title(ghost, std::string("x")); });
+        a.count("evaluations");
+        if (!tt.exists(A)) a.violation("nonexistent_id|remove_of_ghost_removed_a_row", "[" + sn + "] a refused remove() of a nonexistent id removed another row", sn + "|P|remove_after_write");
+        else a.count("validated");
+        pe.clear(424242);  // a DELETE that matches no row
+        a.count("evaluations");
+        try
+        {
+            tt.remove(A);
+            if (tt.exists(A) || tt.get(A)) a.violation("remove|row_still_there", "[" + sn + "] remove() of an existing row straight after a statement that changed no row returned normally but the row is still there", sn + "|P|remove_after_noop");
+            else a.count("validated");
+        }
+        catch (const std::exception& e)
+        {
+            a.violation("remove|existing_row_refused", std::string("[") + sn + "] remove() of an existing row straight after a statement that changed no row threw: " + e.what(), sn + "|P|remove_after_noop");
+        }
+    }
     // (whole-row update() of a nonexistent id is not covered by the statement, which names column accessors and remove())
     {
         a.count("evaluations");
